@@ -66,10 +66,10 @@ CLAIMED = {
     text="On arbitrary bytes (every byte symbolic, object allocated with exactly the input length so any over-read is an error): aws_xml_parse "
          "(preamble loop, next-sibling, declaration split, traverse loop; documents of 3..5 bytes quick, callback scripts abort / descend-then-abort), "
          "base64 decode on both CPU paths (text up to 36), hex decode, UTF-8 validator with arbitrary chunking, unsigned-integer parsing (21 digits), "
-         "percent-decoding, query-string iteration, IPv6 literal check: no out-of-bounds access, loops terminate within the bound (unwinding "
+         "percent-decoding, URI parsing (state functions in sequence), query-string iteration, IPv6 literal check: no out-of-bounds access, loops terminate within the bound (unwinding "
          "assertions are part of the property here), failure is reported through the documented channel with a registered error code, and every "
          "returned view lies inside the input.",
-    note="NOT decided (stated in evidence.outside_claim): JSON/cJSON, the CBOR decoder, aws_uri_init_parse, the XML body/skip path "
+    note="NOT decided (stated in evidence.outside_claim): JSON/cJSON, the CBOR decoder, the URI table dispatcher, the XML body/skip path "
          "(s_advance_to_closing_tag), date-time, UUID and IPv4 (sscanf) -- their encodings exceed 12 GB / 240 s even at 2 input bytes or rest on libc. "
          "A genuine XML defect (searching '>' before '<') was found by these harnesses and repaired by a fix: commit.",
     technique="CBMC bounded symbolic execution of the real parsers over fully symbolic input buffers of fixed small length"),
@@ -82,14 +82,17 @@ CLAIMED = {
          "than one cbor_stream_decode call (a 256-way switch) exhausted 12 GB or 240 s; kept in the harness source, not run. ldexp (libm) stubbed.",
     technique="CBMC bounded symbolic execution of cbor.c + libcbor encoder/decoder, differential against an independent head reader; floatbv for doubles"),
  "C13": dict(
-    text="Percent-encoding (path and query-parameter encoders) for all byte strings up to 4 (quick) / 8 bytes with 0 or 2 bytes already in the output: "
-         "output consists only of unreserved characters, '%XX' with upper-case hex and (paths) '/', exactly one unit per input byte, existing content "
-         "untouched, decode(encode(x)) == x. Query-string iteration on arbitrary query strings up to 5 / 10 bytes: yields each non-empty pair once, in "
-         "order, key/value split at the first '=', agrees with the list form and with an independent reference splitter.",
-    note="NOT decided: clauses (a)/(b) -- parse(compose(components)) and parse(builder(components)) identity and views-inside-uri_str: every CBMC "
-         "instance containing aws_uri_init_parse, even for a 2-byte URI, exhausted 12 GB in propositional reduction (cause not isolated); harnesses "
-         "kept in h_uri.c, not run.",
-    technique="CBMC bounded symbolic execution of uri.c encoders/decoder/query iteration against reference models"),
+    text="(a) parse(compose(components)) == components for 14 component-presence shapes (scheme, user[:password], host or bracketed IPv6 literal or "
+         "empty host, port of 2 or 10 digits incl. values beyond 2^32-1 (rejected), path, query) with every character symbolic, and every component "
+         "view inside the URI object's own copy; (b) the real builder assembles the text (query as string or key=value list, ports incl. the widest "
+         "10-digit values) and the result parses back to the components; (c) percent-encoders: output alphabet, '%XX' upper-case, one unit per input "
+         "byte, existing buffer content untouched, decode(encode(x)) == x for all byte strings up to 4/8 bytes; (d) query iteration == reference "
+         "splitter == list form on arbitrary query strings up to 5/10 bytes; plus URI parse on arbitrary bytes up to 5/8.",
+    note="The 12-line table dispatcher s_init_from_uri_str is replaced in the harness by explicit sequencing of the REAL static state functions "
+         "(its function-pointer-table loop costs CBMC > 7 GB for a 2-byte URI, the sequence 1 s); the builder's final call to it is cut (nondet return) "
+         "and the harness parses the assembled text. snprintf(\"%u\") has a decimal model. Scheme-less URIs with ':' in path/query are excluded "
+         "(ambiguous grammar). A genuine defect (authority ran to a '/' inside the query) was found by (a) and fixed.",
+    technique="CBMC bounded symbolic execution of uri.c (state functions, builder, encoders, query iteration) against generating components / reference models"),
  "C07": dict(
     text="Task scheduler: bounded programs over 2 tasks from a scheduler state identical to what aws_task_scheduler_init produces (checked by a "
          "separate obligation), operation kinds fixed per job from a script list (schedule_now, schedule_future, cancel, run_all, clean_up), all "
